@@ -28,6 +28,20 @@ NOTES = {
  "C17-memo-key-by-count": (False, "needs 4 nodes (If/Else storing different variables + load); quick bound was 3: core alphabet explored one node deeper"),
  "C18-assert-comment-v2-raw": (False, "quick tier compiled at v6/v8 only; version 2 (and 3/4 in thorough) added"),
  "C19-tuple-longer-source": (True, ""),
+ "C07-suffix-extract3-zero-length": (False, "C01 caught it at once (Suffix of a full-length string); C07's tuples never ended in a static element after an empty dynamic one, and offsets never reached 256: big-offset tuples and empty trailing strings added"),
+ "C08-bare-only-router-drops-numargs-guard": (True, ""),
+ "C09-reference-static-length-bits": (True, ""),
+ "C10-optimizer-scans-from-current-block": (False, "C01 caught it at once; C03's known-finding signature for the optimiser defect was too broad and absorbed it: the signature now requires that no unpaired load was deleted"),
+ "C11-probe-discards-cached-declaration": (False, "the probes compiled one program once; probes that query or compile between two compilations of the same objects (same_expr_probe_between, router_twice) added"),
+ "C12-unescape-double-utf8": (False, "C13 caught it at once; C12's byte spellings had no non-ASCII / backslash-quote strings: added"),
+ "C13-methodsig-strips-whitespace": (True, ""),
+ "C14-tuple-length-not-compared": (False, "C19 caught it at once; C14's ill-typed arguments were a hand-picked list: replaced by every ordered pair (given type, declared type) of C19's plain-type universe at the MethodCall site"),
+ "C15-sources-sorted-by-name": (True, ""),
+ "C16-compound-third-factor-wiring": (True, ""),
+ "C17-reserved-slots-counted-as-written": (True, ""),
+ "C18-label-comment-indented-continuation": (True, ""),
+ "C19-address-to-any-32-array": (True, ""),
+ "C20-flatten-referer-wrong-index": (True, ""),
  "C20-normalize-structural-in": (False, "recipes never used one Expr object twice; 'share' build mode added (C20, C01)"),
 }
 for name, (caught, note) in NOTES.items():
